@@ -61,6 +61,9 @@ def cases(tier, seed):
         for op in ("submit", "complete", "cancel", "fail"):
             out.append({"name": "metrics.sweep/%s/%s" % (layer, op), "kind": "sweep", "layer": layer, "op": op, "cap": cap})
     out.append({"name": "metrics.sweep-worker/timeout", "kind": "wsweep", "cap": 40 if tier == "quick" else None})
+    for layer in ("map", "retry", "poll", "throttle", "timeout", "cos", "flat_map"):
+        out.append({"name": "metrics.double-shutdown/%s" % layer, "kind": "dblsd", "layer": layer, "cap": 30 if tier == "quick" else None})
+    out.append({"name": "metrics.precancelled/cos", "kind": "precancelled"})
     out.append({"name": "metrics.engaged", "kind": "engaged"})
     return out
 
@@ -279,13 +282,13 @@ def run_hist(case, res, layers=None):
             instr.advance(2.5)
         w.timeouts = count_timeouts(w)
         w.compare(res, label + " drained", final=True)
-        n_before = len([e for e in LOG.events if e[3] == "spy.cancel.ret" and e[4].get("value")])
+        n_before = len([e for e in LOG.events if e[3] == "spy.cancel.ret" and e[4].get("effective")])
         pend = [r for r in w.futs if not r["f"].done()]
         a = ctx.actor("S", w.top.shutdown, True).go()
         drive([a], use_time=False)
         w.shut = True
         instr.advance(D)
-        w.sd_cancels = len([e for e in LOG.events if e[3] == "spy.cancel.ret" and e[4].get("value")]) - n_before
+        w.sd_cancels = len([e for e in LOG.events if e[3] == "spy.cancel.ret" and e[4].get("effective")]) - n_before
         moved = w.compare(res, label + " after shutdown", final=True)
         res.execs += 1
         check_common(res)
@@ -347,6 +350,78 @@ class MScenario(object):
         w.compare(res, "%s placement=%s" % (self.case["name"], info.get("site")), final=True)
         if info.get("hit"):
             res.key("sweep", self.case["name"], info.get("site"))
+
+
+class DSScenario(object):
+    """shutdown() | shutdown(): the executors-in-use gauge goes down exactly once."""
+
+    def __init__(self, case):
+        self.case = case
+
+    def setup(self):
+        ctx = Ctx()
+        ctx.w = MW(ctx, [self.case["layer"]], 0)
+        ctx.w.submit()
+        instr.advance(D)
+        return ctx
+
+    def victim_role(self, ctx):
+        return "V"
+
+    def start_victim(self, ctx):
+        return ctx.actor("V", ctx.w.top.shutdown, False).go()
+
+    def intervene(self, ctx):
+        ctx.w.top.shutdown(False)
+
+    def finish(self, ctx):
+        ctx.w.shut = True
+        for k in ctx.w.items_pending():
+            ctx.w.me.run(k)
+        instr.advance(3.0)
+
+    def oracle(self, ctx, res, info):
+        w = ctx.w
+        P = prom()
+        label = "%s placement=%s" % (self.case["name"], info.get("site"))
+        for key, (value, mn, is_gauge) in P.dump(w.name).items():
+            if key[0] == "exec_inprogress" and (value != 0 or mn < 0):
+                res.violation("gauge-negative/exec_inprogress" if mn < 0 else "gauge-not-zero/exec_inprogress",
+                              "%s: after two racing shutdown() calls %s = %s (minimum %s)" % (label, key, value, mn))
+        if info.get("hit"):
+            res.key("dblsd", self.case["layer"], info.get("site"))
+
+
+def run_precancelled(case, res):
+    """The wrapped executor hands back futures that are already cancelled / finished: shutdown cancels
+    nothing, so shutdown_cancel stays 0."""
+    for how in ("cancelled", "done", "mixed"):
+        begin("vt")
+        ctx = Ctx()
+        try:
+            w = MW(ctx, ["cos"], 0)
+
+            def auto(me, idx):
+                if how == "cancelled" or (how == "mixed" and idx % 2 == 0):
+                    me.fut(idx).cancel()
+                elif how == "done":
+                    me.run(idx)
+            w.me.auto = auto
+            for _ in range(4):
+                w.submit()
+            instr.advance(D)
+            before = sum(getattr(it[0], "effective_cancels", 0) for it in w.me.items)
+            a = ctx.actor("S", w.top.shutdown, True).go()
+            drive([a], use_time=False)
+            w.shut = True
+            instr.advance(D)
+            w.sd_cancels = sum(getattr(it[0], "effective_cancels", 0) for it in w.me.items) - before
+            res.execs += 1
+            check_common(res)
+            w.compare(res, "%s/%s" % (case["name"], how), final=True)
+            res.key("precancelled", how)
+        finally:
+            end(ctx)
 
 
 class TWScenario(object):
@@ -418,6 +493,11 @@ def run_case(case, res):
         run_stack(case, res)
     elif k == "engaged":
         run_engaged(case, res)
+    elif k == "dblsd":
+        rng = random.Random("c20d/%s/%s" % (case["seed"], case["name"]))
+        Sweep(DSScenario(case), res, "vt", case["name"]).run(case["cap"], rng, per_site=2)
+    elif k == "precancelled":
+        run_precancelled(case, res)
     elif k == "wsweep":
         rng = random.Random("c20w/%s" % case["seed"])
         Sweep(TWScenario(case), res, "vt", case["name"]).run(case["cap"], rng, per_site=3)
